@@ -124,9 +124,11 @@ def family(T):
 
 
 SCALAR_GOOD = {
-    "int": [0, 1, -1, 2, 5, 7],
-    "str": ["", "a", "b", " a ", "zz"],
-    "float": [0.0, 0.5, 2, -1.5],
+    # the first entries are what shrinking (and Hypothesis's bias towards small draws) favours: a value every preparer of the
+    # pool changes differently, then the falsy one
+    "int": [-1, 0, 5, 1, 2, 7],
+    "str": [" a ", "", "a", "b", "zz"],
+    "float": [-1.5, 0.0, 0.5, 2],
 }
 SCALAR_BAD = {
     "int": ["x", 1.5, None, ["list", [1]], 0.0, 1.0, 2.0, 5.0],  # incl. floats that compare equal to conforming ints
@@ -275,9 +277,9 @@ def _dedupe(items):
 
 PREPARERS = {
     "int": ["abs", "bad_if_5"],
-    "str": ["strip"],
+    "str": ["strip", "upper"],
     "list": ["cast_list"],
-    "float": ["abs"],
+    "float": ["abs", "floor"],
     # a preparer that changes nothing still is a user callback that can fail (fault plans target it)
     "spec": ["noop"], "dict": ["noop"], "set": ["noop"], "keyedlist": ["noop"], "keyedset": ["noop"],
 }
@@ -403,13 +405,18 @@ def gen_world(src, profile):
         if a["default"][0] != "none" and not is_collection(a["type"]) and a["type"][0] not in ("spec",):
             mdesc["redefaults"] = {a["name"]: gen_value(src, a["type"], True)}
             if profile.get("preparers", True) and a["type"][0] in PREPARERS and src.chance(1, 2):
-                # ... whose preparer the parent registered through `@<attr>.preparer` (it belongs to the attribute's
-                # specification, which the re-default must keep)
                 pdesc = world["classes"][-1]
                 pdesc.setdefault("prepare", {})[a["name"]] = src.pick(PREPARERS[a["type"][0]])
-                pdesc["prepare_style"] = "decorator"
-                if a["default"][0] in ("lit", "field_default"):
-                    a["default"] = ["attr_default"] + a["default"][1:]
+                if len(PREPARERS[a["type"][0]]) > 1 and src.chance(2, 3):
+                    # ... and M also brings its own `_prepare_<attr>`, which every route (assignment, constructor AND the
+                    # inherited helpers) must then use
+                    mdesc.setdefault("prepare", {})[a["name"]] = next(p for p in PREPARERS[a["type"][0]] if p != pdesc["prepare"][a["name"]])
+                else:
+                    # ... whose preparer the parent registered through `@<attr>.preparer` (it belongs to the attribute's
+                    # specification, which the re-default must keep)
+                    pdesc["prepare_style"] = "decorator"
+                    if a["default"][0] in ("lit", "field_default"):
+                        a["default"] = ["attr_default"] + a["default"][1:]
     world["classes"].append(mdesc)
     for c in world["classes"]:
         d = [a["name"] for a in c["attrs"] if a.get("do_not_copy") == "decorator"]
@@ -784,6 +791,10 @@ def apply_preparer(how, v):
         return abs(v) if isinstance(v, (int, float)) and not isinstance(v, bool) else v
     if how == "strip":
         return v.strip() if isinstance(v, str) else v
+    if how == "upper":
+        return v.upper() if isinstance(v, str) else v
+    if how == "floor":
+        return float(int(v // 1)) if isinstance(v, (int, float)) and not isinstance(v, bool) else v
     if how == "cast_list":
         return list(v) if isinstance(v, tuple) else v
     if how == "noop":
